@@ -102,8 +102,12 @@ def main(argv=None):
                 okw, textw = mod.confirm_witness(rp, resp)
                 if okw:
                     traces_validated += 1
-                else:
+                elif rp.get("exact_model", True):
                     harness_errors.append(f"reachability witness does not replay on real torch: {textw}")
+                else:
+                    # the only model found leaves distances to the abstraction (no collinear / dyadic completion exists on this path):
+                    # the real run is not obliged to follow it, so it validates nothing and breaks nothing
+                    diff_notes.append(f"witness skipped (inexact model: distance abstraction): {textw[:160]}")
                 continue
             if ci in done:
                 continue
